@@ -47,7 +47,7 @@ theorem selset_step (s : Schema) (d : Document) (sel : List Selection) (parent :
     intro a ha
     obtain ⟨h1, h2⟩ := mem_specSels_dep s _ sel parent a hg.1 ha
     exact ⟨by have := hg.2.2; omega, h2⟩
-  obtain ⟨cs, hcs, hiff⟩ := conflictsWithin_ff s d (docDepth d) (mergeFuel d) _ {} hF (by simp [mergeFuel]; omega) rfl
+  obtain ⟨cs, hcs, hiff⟩ := conflictsWithin_ff s d (docDepth d) (mergeFuel d) _ {} hF (by unfold mergeFuel; omega) rfl
   refine ⟨cs, ?_, ?_⟩
   · simp only [hcs, conflictsWithinSelectionSet.loop]
   · rw [hiff]; unfold WBad; exact ⟨fun h hn => hn h, fun h => Classical.byContradiction h⟩
